@@ -746,7 +746,23 @@ def replay_of(r, **extra):
     return d
 
 
+def in_rank_order(block, pairs):
+    """layout-independent reading of "prints exactly the engine's results in rank order": every (command, description) of the
+    answer occurs in the block, one after the other"""
+    pos = 0
+    for cmd, desc in pairs:
+        for part in (cmd, desc):
+            if not part:
+                continue
+            i = block.find(part, pos)
+            if i < 0:
+                return False
+            pos = i + len(part)
+    return True
+
+
 def evaluate(ctx, runs, colors, use_fuzzy=True):
+    layout_diffs = []
     colors_on = {k: v.encode("latin-1") for k, v in colors.items()}
     colors_off = {k: b"" for k in colors}
     ops, impl = [], []
@@ -848,25 +864,44 @@ def evaluate(ctx, runs, colors, use_fuzzy=True):
                     if len(arr) != len(answer):
                         hit("cli-json-object-count", "%d JSON objects for %d results (%s path)" % (len(arr), len(answer), path))
                     exp = expected_json(answer, docs, verbose)
-                    if arr != exp:
-                        k = next((i for i in range(min(len(arr), len(exp))) if arr[i] != exp[i]), min(len(arr), len(exp)))
+                    ident = lambda objs: [(o.get("command"), o.get("description")) for o in objs]
+                    if ident(arr) != ident(exp):
+                        # the property's clause: exactly the engine's results, in rank order
+                        k = next((i for i in range(min(len(arr), len(exp))) if ident(arr)[i] != ident(exp)[i]), min(len(arr), len(exp)))
                         hit("cli-output-differs-from-engine", "JSON object %d differs: printed %s expected %s" % (
                             k, json.dumps(arr[k])[:300] if k < len(arr) else "<none>", json.dumps(exp[k])[:300] if k < len(exp) else "<none>"))
+                    elif arr != exp:
+                        # the right results in the right order, but other members than the rendering oracle expects (say a new
+                        # omitempty member): the tie to the regenerated rendering is broken, the property is not
+                        k = next((i for i in range(min(len(arr), len(exp))) if arr[i] != exp[i]), min(len(arr), len(exp)))
+                        layout_diffs.append("%s: JSON object %d has other members than the rendering oracle: printed %s expected %s" % (
+                            what[:200], k, json.dumps(arr[k])[:300], json.dumps(exp[k])[:300]))
+                        printed_ids = [h["id"] for h in answer]
                     else:
                         printed_ids = [h["id"] for h in answer]
             elif fmt_obs == "list":
                 items, mode = parse_list(block, colors_on, colors_off)
                 if items is None:
-                    hit("cli-output-differs-from-engine", "list block unparsable: %s" % mode)
+                    if in_rank_order(block, [(docs[h["id"]].command, docs[h["id"]].description) for h in answer]):
+                        layout_diffs.append("%s: list block not in the layout the rendering oracle knows (%s); the results are there, in rank order" % (what[:200], mode))
+                    else:
+                        hit("cli-output-differs-from-engine", "list block unparsable: %s" % mode)
                 else:
                     if len(items) > limit:
                         hit("cli-more-than-limit", "%d items printed, limit in force %d (%s path)" % (len(items), limit, path))
                     exp = expected_list_items(answer, docs, verbose)
                     got = [{k: it[k] for k in ("n", "cmd", "desc", "kw", "cat", "plat", "rel")} for it in items]
-                    if got != exp:
-                        k = next((i for i in range(min(len(got), len(exp))) if got[i] != exp[i]), min(len(got), len(exp)))
+                    lid = lambda its: [(it["n"], it["cmd"], it["desc"]) for it in its]
+                    if lid(got) != lid(exp):
+                        k = next((i for i in range(min(len(got), len(exp))) if lid(got)[i] != lid(exp)[i]), min(len(got), len(exp)))
                         hit("cli-output-differs-from-engine", "%d items printed, %d expected (%s path); first difference at item %d: printed %s expected %s" % (
                             len(got), len(exp), path, k + 1, got[k] if k < len(got) else None, exp[k] if k < len(exp) else None))
+                    elif got != exp:
+                        # numbering, commands and descriptions are the engine's; a secondary line (keywords, category, platforms,
+                        # relevance) is rendered otherwise than the oracle expects
+                        k = next(i for i in range(len(got)) if got[i] != exp[i])
+                        layout_diffs.append("%s: list item %d: printed %s, rendering oracle %s" % (what[:200], k + 1, got[k], exp[k]))
+                        printed_ids = [h["id"] for h in answer]
                     else:
                         printed_ids = [h["id"] for h in answer]
                     if mode == "color" and nocolor:
@@ -879,7 +914,12 @@ def evaluate(ctx, runs, colors, use_fuzzy=True):
                 if got_rows > limit:
                     hit("cli-more-than-limit", "%d table rows, limit in force %d (%s path)" % (got_rows, limit, path))
                 if body != b"".join(exp_rows):
-                    hit("cli-output-differs-from-engine", "table rows differ (%s path): printed %r expected %r" % (path, body[:400], b"".join(exp_rows)[:400]))
+                    if got_rows == len(answer) and in_rank_order(body, [(clip(docs[h["id"]].command, 48, 45), b"") for h in answer]):
+                        layout_diffs.append("%s: table rows are the engine's results in rank order but not byte for byte the rendering oracle's: printed %r expected %r" % (
+                            what[:200], body[:300], b"".join(exp_rows)[:300]))
+                        printed_ids = [h["id"] for h in answer]
+                    else:
+                        hit("cli-output-differs-from-engine", "table rows differ (%s path): printed %r expected %r" % (path, body[:400], b"".join(exp_rows)[:400]))
                 else:
                     printed_ids = [h["id"] for h in answer]
                 for h in answer:
@@ -1020,6 +1060,11 @@ def evaluate(ctx, runs, colors, use_fuzzy=True):
         ctx.oblige("correspondence:cli-model", "correspondence", False, detail)
     else:
         ctx.oblige("correspondence:cli-model", "correspondence", True, "%d runs: stage, printed ids, format, escapes, history and result-block bytes agree with Wtf.Cli.cliSearch" % len(run.order))
+    # the strict rendering oracle (every member / secondary line / byte of the block) is a tie to the code, not the property:
+    # when it disagrees while the engine's results are printed in rank order, that is a broken obligation without an input
+    ctx.oblige("correspondence:cli-rendering-oracle", "correspondence", not layout_diffs,
+               ("%d runs print the engine's results in rank order but not in the form the rendering oracle expects; first: %s" % (len(layout_diffs), layout_diffs[0]))
+               if layout_diffs else "every printed block is, member for member and byte for byte, what the rendering oracle expects")
     ctx.oblige("hypothesis:answers-sorted-and-bounded", "correspondence", n_hyp_bad == 0,
                "engine / recovery answers sorted by score and engine answer within Limit on all %d runs (hypotheses of prints_engine / limit)" % len(runs))
     # every path must have been reached
